@@ -24,6 +24,7 @@ EXPLANATION = (
     'the adapter is stateless across calls and keyed per call (C10.R3); the stream producer pads between files with (-bytes streamed for the previous file) mod '
     'alignment zero bytes, where alignment is the chunker adapter\'s constant and is a multiple of the native candidate stride. Rules C11.R1-R3.'
     ' Added with the seeded-defect rounds: every file enters the stream once, snapshot cuts with self.props.chunkify only, cache holds snapshot objects only.'
+    ' Round 6: the chunker key is the stored chunker_params entry itself; the fixed default replaces an absent key only.'
 )
 NOT_DECIDED = 'resynchronisation distance, coincidence of boundaries on shared suffixes, key sensitivity (statistical statements about hash values)'
 TRUSTED = c10.TRUSTED
